@@ -15,7 +15,14 @@
 (***************************************************************************)
 EXTENDS CertLoadProps
 
-CONSTANTS Pool,         \* element names, e.g. {"a", "b", "c", "d"}
+(* The reserved name of the root of trust ("root" / "sgx_root") may itself be  *)
+(* carried by an element: put Root into Pool.  Both walks of the program test  *)
+(* `signed_by = Root` BEFORE looking the signer up among the elements, so such *)
+(* an element is never followed - whether it is self-signed, mutually signed   *)
+(* with an element on a target's path, signed by a normal element, off-path,   *)
+(* or a target itself - and the certificate stays acyclic in the sense of      *)
+(* CertLoadProps (a path ends at the first `signed_by = Root`).                *)
+CONSTANTS Pool,         \* element names, e.g. {"a", "b", "c", "root"}
           MaxItems, MaxTargets,
           MaxOdd        \* how many items may carry an unusual-but-loadable payload
 
@@ -198,5 +205,8 @@ Terminates == <>Done
 \* vacuity guards: each must be VIOLATED by the model
 NeverDone      == phase # "done"
 NeverDupWins   == ~(phase = "done" /\ Len(items) > Cardinality(DOMAIN eff) /\ res1 # <<>>)
+NeverRootNamed == ~(phase = "done" /\ Root \in DOMAIN eff /\ res1 # <<>>
+                     /\ \E n \in DOMAIN eff : n # Root /\ eff[n] \in DOMAIN iby /\ iby[eff[n]] = Root
+                     /\ eff[Root] \in DOMAIN iby)     \* an element named like the root, walked as a target
 NeverCycle     == ~(phase = "error" /\ sub = "step" /\ items[cur].name \in visited)
 =============================================================================
